@@ -31,7 +31,7 @@ PROPS = {
     ),
     "C03": dict(
         pkg="c03",
-        quick=T(4, 1, 600),
+        quick=T(4, 1.5, 600),
         thorough=T(16, 60, 3000, fuzz=[dict(name="FuzzSentence", count=1500000)]),
         assumptions=[
             "harness/ref/bip39 (bit-string codec, self-checked on the official Trezor vectors) is the BIP-39 specification",
@@ -40,20 +40,20 @@ PROPS = {
     ),
     "C04": dict(
         pkg="c04",
-        quick=T(4, 1, 600),
-        thorough=T(16, 50, 3000, fuzz=[dict(name="FuzzDecode", count=3000000)]),
+        quick=T(4, 4, 600),
+        thorough=T(16, 200, 3000, fuzz=[dict(name="FuzzDecode", count=3000000)]),
         assumptions=BECH32_ASSUME + ["strings are judged as byte strings; 'character' in the 90-character limit means byte (identical for the ASCII strings that can be valid)"],
     ),
     "C05": dict(
         pkg="c05",
-        quick=T(4, 1, 600),
-        thorough=T(16, 50, 3000),
+        quick=T(4, 4, 600),
+        thorough=T(16, 300, 3000),
         assumptions=BECH32_ASSUME,
     ),
     "C11": dict(
         pkg="c11",
-        quick=T(8, 1, 900),
-        thorough=T(16, 40, 3400),
+        quick=T(8, 2, 900),
+        thorough=T(16, 300, 3400),
         assumptions=[
             "harness/ref/pow: own chain BLAKE2b-256 (x/crypto) -> b1t6 (ref/trit) -> scalar Curl-P-81 (ref/curl) -> trailing zeros; Score compared within 2 ulp of the exactly rounded 3^z/len",
             "soundness of Mine is judged with the package's own Score, which the score sub-check validates against the reference",
@@ -76,7 +76,7 @@ PROPS = {
         pkg="c13",
         race=True,
         quick=T(4, 1, 1200, shrinktime="60s"),
-        thorough=T(8, 25, 3400, shrinktime="120s"),
+        thorough=T(8, 100, 3400, shrinktime="120s"),
         assumptions=[
             "the Go scheduler is not under the harness's control: interleavings are sampled by varying GOMAXPROCS, worker counts and cancellation instants; the race detector reports races on executed accesses regardless of the observed order",
             "'returns within a short bounded time' is checked as 45 s after cancellation (expected: milliseconds); exceeding it is reported with a goroutine dump, the process then exits (no shrinking)",
@@ -85,8 +85,8 @@ PROPS = {
     ),
     "C14": dict(
         pkg="c14",
-        quick=T(2, 1, 600),
-        thorough=T(16, 80, 3000),
+        quick=T(4, 4, 600),
+        thorough=T(16, 500, 3000),
         assumptions=[
             "harness/ref/trit (integer arithmetic from TIP-5, self-checked on the TIP-5 examples) is the specification of b1t6/b1t8 and of the tryte alphabet",
             "only trits in {-1,0,1} and trytes in 9A-Z are generated; behaviour outside is documented as undefined",
@@ -94,8 +94,8 @@ PROPS = {
     ),
     "C15": dict(
         pkg="c15",
-        quick=T(4, 1, 600),
-        thorough=T(16, 40, 3000),
+        quick=T(4, 2, 600),
+        thorough=T(16, 150, 3000),
         assumptions=[
             "crypto/sha256, sha512, sha1 and x/crypto/blake2b are trusted as the hash functions",
             "the reference is an iterative binary-counter construction plus the RFC 9162 inclusion-proof verifier; both live in harness/c15",
@@ -103,7 +103,7 @@ PROPS = {
     ),
     "C16": dict(
         pkg="c16",
-        quick=T(4, 1, 600),
+        quick=T(4, 1.5, 600),
         thorough=T(16, 60, 3400),
         assumptions=BECH32_ASSUME + [
             "syndrome argument: the checksum is measured black-box through Encode; that Decode rejects exactly the strings with a non-zero syndrome is property C04/C05 plus the end-to-end sub-checks here",
@@ -127,8 +127,8 @@ PROPS = {
     ),
     "C19": dict(
         pkg="c19",
-        quick=T(4, 1, 600),
-        thorough=T(16, 50, 3000, fuzz=[dict(name="FuzzParseBech32", count=2000000)]),
+        quick=T(4, 3, 600),
+        thorough=T(16, 200, 3000, fuzz=[dict(name="FuzzParseBech32", count=2000000)]),
         assumptions=BECH32_ASSUME + [
             "golang.org/x/crypto/blake2b is trusted for the address hashes and the migration checksum",
             "harness/ref/trit is the specification of b1t6 and the tryte alphabet",
@@ -138,8 +138,8 @@ PROPS = {
     "C06": dict(
         pkg="c06",
         variants=[[], ["purego"]],
-        quick=T(8, 1, 900),
-        thorough=T(16, 25, 3400),
+        quick=T(8, 1.5, 900),
+        thorough=T(16, 150, 3400),
         assumptions=[
             "harness/ref/curl: scalar Curl-P-81 from the truth-table definition (self-checked on the 300 pinned Curl-P-81 vectors incl. multi-block absorb and squeeze; cross-checked against iota.go/curl in its own unit test)",
             "half of the shards run the build with -tags purego (portable permutation), half the default build (assembly on amd64)",
@@ -148,8 +148,8 @@ PROPS = {
     ),
     "C07": dict(
         pkg="c07",
-        quick=T(4, 1, 600),
-        thorough=T(16, 100, 3000),
+        quick=T(4, 3, 600),
+        thorough=T(16, 500, 3000),
         assumptions=["crypto/ed25519 of the Go standard library is the RFC 8032 reference (differential oracle)"],
     ),
     "C08": dict(
@@ -160,8 +160,8 @@ PROPS = {
     ),
     "C09": dict(
         pkg="c09",
-        quick=T(4, 1, 600),
-        thorough=T(16, 60, 3000),
+        quick=T(4, 1.5, 600),
+        thorough=T(16, 80, 3000),
         assumptions=[
             "harness/ref/bip39: own PBKDF2-HMAC-SHA512 on crypto/hmac (self-checked on an official BIP-39 seed vector) and the pinned word lists",
             "NFKD: a hand-made (raw, NFKD) piece table from the Unicode character database is cross-checked against golang.org/x/text at start-up; for arbitrary passphrases x/text NFKD itself is the oracle (trusted)",
@@ -170,8 +170,8 @@ PROPS = {
     ),
     "C10": dict(
         pkg="c10",
-        quick=T(2, 1, 600),
-        thorough=T(16, 60, 3000, fuzz=[dict(name="FuzzParsePath", count=3000000)]),
+        quick=T(4, 4, 600),
+        thorough=T(16, 250, 3000, fuzz=[dict(name="FuzzParsePath", count=3000000)]),
         assumptions=[
             "the reference parser (harness/c10, hand-written, base 10, no regexp/strconv) is the specification of the accepted language",
         ],
@@ -179,8 +179,8 @@ PROPS = {
     "C20": dict(
         pkg="c20",
         variants=[[], ["purego"]],
-        quick=T(8, 1, 900),
-        thorough=T(16, 60, 3400),
+        quick=T(8, 2, 900),
+        thorough=T(16, 300, 3400),
         assumptions=[
             "harness/ref/curl (scalar truth-table Curl-P-81, validated on pinned vectors) defines the per-lane result",
             "memory safety of the assembly is observed with mmap'ed buffers flush against 1 MiB PROT_NONE guard regions on both sides (two placements) and debug.SetPanicOnFault; the routine's addresses are input-independent (constant-bound loops, no data-dependent branch), so each guarded execution exercises every memory access of the routine as checked in; an access further than 1 MiB from the buffers that happens to hit mapped memory would be missed",
